@@ -32,7 +32,7 @@ inductive Stp (a b : Sys) (k : Nat) (st st' : NState) : Prop
       (hboot : Node.boot c st.raft.raftLog.store rnd = .ok (.ok st')) (hnet : b.net = a.net)
 
 /-- every step of the history is such a step -/
-theorem stp_of (H : Hyp2 cfg c0 h) {n : Nat} {a b : Sys} (ha : h[n]? = some a)
+theorem stp_of (H : Hyp2w cfg c0 h) {n : Nat} {a b : Sys} (ha : h[n]? = some a)
     (hb : h[n + 1]? = some b) :
     ∃ k st st', a.node k = some st ∧ b.node k = some st' ∧ (∀ v, v ≠ k → b.node v = a.node v) ∧
       Stp a b k st st' := by
@@ -82,7 +82,7 @@ structure NodeFull (h : List Sys) (c0 : Nat) (st : NState) : Prop where
   sto : Full (HistChain h) c0 (storeLog st.raft.raftLog.store) (FS h c0 st)
   pre : ∀ k, k ≤ st.raft.raftLog.abs.snapIdx → (FL h c0 st).entryAt k = (FS h c0 st).entryAt k
 
-theorem NodeFull.of (H : Hyp2 cfg c0 h) {st : NState} {F G : LLog}
+theorem NodeFull.of (H : Hyp2w cfg c0 h) {st : NState} {F G : LLog}
     (h1 : Full (HistChain h) c0 st.raft.raftLog.abs F)
     (h2 : Full (HistChain h) c0 (storeLog st.raft.raftLog.store) G)
     (h3 : ∀ k, k ≤ st.raft.raftLog.abs.snapIdx → F.entryAt k = G.entryAt k) : NodeFull h c0 st :=
@@ -119,7 +119,7 @@ theorem callstep_keeps {a : Sys} {v : Nat} {st st' : NState} (hs : Cluster.CallS
     rw [if_neg (by have := snap_le_last st.raft.raftLog.abs; omega), if_pos heq, hn] at hanc
     cases hanc
 
-theorem node_full (H : Hyp2 cfg c0 h) : ∀ (n : Nat) (s : Sys), h[n]? = some s →
+theorem node_full (H : Hyp2w cfg c0 h) : ∀ (n : Nat) (s : Sys), h[n]? = some s →
     ∀ v st, s.node v = some st → NodeFull h c0 st := by
   refine hist_induct h _ ?_ ?_
   · intro s h0 v st hv
